@@ -423,9 +423,9 @@ Lemma keeps_intro nt nt' i e :
   (forall x, mem x (n_main (get nt i)) = true -> mem x (n_main (get nt' i)) = true) -> keeps nt nt' i e.
 Proof. unfold keeps. intros. repeat split; auto. Qed.
 
-Theorem step_keeps0 e nt i : i < length nt -> keeps nt (nstep0 nt e) i e.
+Theorem step_keeps0 e nt i : is_start e = false -> i < length nt -> keeps nt (nstep0 nt e) i e.
 Proof.
-  intros Hi. destruct e as [s b| |j f|j|w k|r k|w k|r k|r k|r k]; cbn [nstep0].
+  intros Hns Hi. destruct e as [s b| |j f|j|w k|r k|w k|r k|r k|r k|d s b]; [| | | | | | | | | |discriminate Hns]; cbn [nstep0].
   - (* join *) unfold join.
     set (new := {| n_alive := true; n_server := s; n_boots := b; n_main := []; n_signed := []; n_store := []; n_cache := [] |}).
     assert (L: length (nt ++ [new]) = S (length nt)) by (rewrite app_length; cbn; lia).
@@ -483,15 +483,16 @@ Definition ev_ok (nt : net) (e : nevent) : Prop :=
   | ECrash j => j <> 0
   | EJoin _ boots => (forall x, In x boots -> x < length nt) /\
                      (boots = [] \/ exists b, In b boots /\ responds nt b = true /\ attached nt b)
+  | EStart _ _ _ => False     (* a second network coming up at a dead address is outside the history theorems *)
   | _ => True
   end.
 
 Fixpoint hist_ok (nt : net) (evs : list nevent) : Prop :=
   match evs with [] => True | e :: r => ev_ok nt e /\ hist_ok (nstep nt e) r end.
 
-Lemma responds_step0 e nt i : i < length nt -> e <> ECrash i -> responds (nstep0 nt e) i = responds nt i.
+Lemma responds_step0 e nt i : is_start e = false -> i < length nt -> e <> ECrash i -> responds (nstep0 nt e) i = responds nt i.
 Proof.
-  intros Hi Hne. destruct (step_keeps0 e nt i Hi) as (_ & Fs & _ & [Fa|Fc] & _); [|contradiction].
+  intros Hns Hi Hne. destruct (step_keeps0 e nt i Hns Hi) as (_ & Fs & _ & [Fa|Fc] & _); [|contradiction].
   unfold responds. now rewrite Fa, Fs.
 Qed.
 
@@ -499,11 +500,12 @@ Theorem hub_step0 nt e : hub_inv nt -> ev_ok nt e -> hub_inv (nstep0 nt e).
 Proof.
   intros [Hl [Hr Hb] Ha Hk] Hok.
   assert (Hne: e <> ECrash 0) by (destruct e; cbn in Hok; congruence).
-  destruct (step_keeps0 e nt 0 Hl) as (Hlen & _ & Fb0 & _ & Fm0).
+  assert (Hns: is_start e = false) by (destruct e; try reflexivity; destruct Hok).
+  destruct (step_keeps0 e nt 0 Hns Hl) as (Hlen & _ & Fb0 & _ & Fm0).
   assert (OLD: forall j, j < length nt -> n_boots (get (nstep0 nt e) j) = n_boots (get nt j) /\
                                           n_server (get (nstep0 nt e) j) = n_server (get nt j) /\
                                           (forall x, mem x (n_main (get nt j)) = true -> mem x (n_main (get (nstep0 nt e) j)) = true)).
-  { intros j Hj. destruct (step_keeps0 e nt j Hj) as (_ & Fs & Fb & _ & Fm). auto. }
+  { intros j Hj. destruct (step_keeps0 e nt j Hns Hj) as (_ & Fs & Fb & _ & Fm). auto. }
   (* the nodes that existed before *)
   assert (ATT: forall j, j < length nt -> n_boots (get (nstep0 nt e) j) <> [] -> attached (nstep0 nt e) j).
   { intros j Hj Hbj. destruct (OLD j Hj) as (Fb & _ & Fm). rewrite Fb in Hbj. destruct (Ha j Hj Hbj) as [->|H]; [now left|right; auto]. }
@@ -512,7 +514,7 @@ Proof.
   { intros j Hj Hbj Hsj. destruct (OLD j ltac:(lia)) as (Fb & Fs & _). rewrite Fb in Hbj. rewrite Fs in Hsj. apply Fm0. auto. }
   assert (FIRST: responds (nstep0 nt e) 0 = true /\ n_boots (get (nstep0 nt e) 0) = []).
   { split; [rewrite responds_step0; auto|now rewrite Fb0]. }
-  destruct e as [s b| |j f|j|w k|r k|w k|r k|r k|r k].
+  destruct e as [s b| |j f|j|w k|r k|w k|r k|r k|r k|d s b]; [| | | | | | | | | |destruct Hok].
   3-10: (match goal with |- hub_inv (nstep0 ?n ?ev) =>
            assert (EL: length (nstep0 n ev) = length n) by
              (cbn [nstep0]; repeat match goal with |- context [if ?c then _ else _] => destruct c end;
@@ -600,9 +602,9 @@ Qed.
 Lemma kept_retry_pass nt i : i < length nt -> kept nt (retry_pass nt) i.
 Proof. intros Hi. unfold retry_pass. now apply kept_fold. Qed.
 
-Theorem step_keeps e nt i : i < length nt -> keeps nt (nstep nt e) i e.
+Theorem step_keeps e nt i : is_start e = false -> i < length nt -> keeps nt (nstep nt e) i e.
 Proof.
-  intros Hi. unfold nstep. destruct (step_keeps0 e nt i Hi) as (L & S & B & A & M).
+  intros Hns Hi. unfold nstep. destruct (step_keeps0 e nt i Hns Hi) as (L & S & B & A & M).
   assert (Hi': i < length (nstep0 nt e)) by lia.
   destruct (kept_retry_pass (nstep0 nt e) i Hi') as (L2 & S2 & B2 & A2 & M2).
   unfold keeps. rewrite <- L2, S2, B2, A2. repeat split; auto.
@@ -616,7 +618,10 @@ Lemma nstep_hub nt e : hub_inv nt -> ev_ok nt e -> nstep nt e = nstep0 nt e.
 Proof. intros H Hok. unfold nstep. apply retry_pass_hub. now apply hub_step0. Qed.
 
 Lemma responds_step e nt i : hub_inv nt -> ev_ok nt e -> i < length nt -> e <> ECrash i -> responds (nstep nt e) i = responds nt i.
-Proof. intros H Hok Hi Hne. rewrite nstep_hub by assumption. now apply responds_step0. Qed.
+Proof.
+  intros H Hok Hi Hne. rewrite nstep_hub by assumption. apply responds_step0; try assumption.
+  destruct e; try reflexivity; destruct Hok.
+Qed.
 
 Theorem hub_history evs : forall nt, hub_inv nt -> hist_ok nt evs -> hub_inv (fold_left nstep evs nt).
 Proof.
